@@ -3,37 +3,50 @@ package main
 var metaReal = []string{"v1/services/meta.Client and Data (CreateShardGroup, DeleteShardGroup, TruncateShardGroups, PrecreateShardGroups, ShardGroupsByTimeRange, MarshalBinary/load through kv)",
 	"v1/coordinator.PointsWriter (MapShards, WritePointsPrivileged)", "v1/services/retention.Service (its own ticker loop and DeletionCheck)", "inmem.KVStore"}
 var metaStub = []string{"TSDB store: recorder (CreateShard/WriteToShard/ShardIDs/DeleteShard/ShardInUse)", "clock: synctest bubble (virtual, starts 2000-01-01)",
-	"meta client proxy that forwards to the real client and judges the service's deletions at the call"}
+	"meta client proxy that forwards to the real client and judges the service's deletions at the call",
+	"concurrent configurations: goroutines of the instrumented packages run under the baton scheduler (every lock, channel operation and go statement of meta.Client, PointsWriter and retention.Service is a scheduling point)"}
 
 func init() {
 	reg(&checkSpec{
-		ID: "C18", Harness: "meta", Inst: metaInst, Level: "exploration", Classes: []string{"C18:"},
+		ID: "C18", Harness: "meta", Inst: metaInst, Level: "exploration", Classes: []string{"C18:", "deadlock", "busy-wait"},
 		Cfgs: []cfgSpec{{Name: "shards", Cfg: "mode=shards", Gating: true, Share: 2},
 			// same domain minus the two triggers of findings C18-F1/F2, so that the rest of the space is not masked by them
-			{Name: "shards-away-from-known", Cfg: "mode=shards,avoidknown", Gating: true, Share: 2}},
-		QuickSecs: 40, ThoroughSecs: 600,
+			{Name: "shards-away-from-known", Cfg: "mode=shards,avoidknown", Gating: true, Share: 2},
+			// 2-3 client goroutines per round under the baton scheduler, interleaved inside the calls of meta.Client
+			{Name: "concurrent", Cfg: "mode=concurrent", Gating: true, Share: 3}},
+		QuickSecs: 60, ThoroughSecs: 600,
 		Rule: "one case = one generated history of MapShards calls by 3 logical callers (timestamps over the whole int64 ns range, group durations 1ns…100y as normalised by the API, two retention policies) interleaved with close/re-open of the meta client from its KV state, group deletion, truncation, precreation and range queries; " +
-			"non-trivial = at least 3 operations and one accepted point; distinct = distinct hash of (operations, resulting group tables, query results)",
-		Probes: []string{"reopen", "epoch_bound_reloaded", "pre1970_point", "extreme_point", "truncated_group", "group_deleted", "clipped_group", "sgd_year_or_more", "query_hit"},
+			"in the concurrent configuration one case = one program of rounds (the operations of a round run on 2-3 goroutines, started together, e.g. first writes into different new shard groups) plus its schedule; " +
+			"non-trivial = at least 3 operations and one accepted point (concurrent: and at least one context switch); distinct = distinct hash of (operations, resulting group tables, query results, schedule)",
+		Probes: []string{"reopen", "epoch_bound_reloaded", "pre1970_point", "extreme_point", "truncated_group", "group_deleted", "clipped_group", "sgd_year_or_more", "query_hit",
+			"conc_round", "conc_new_groups_by_several_clients", "pruned"},
 		Real:   metaReal, Stub: metaStub,
-		Assumptions: []string{"callers interleave whole operations (DESIGN §5); yield-level concurrency inside one meta call is not explored here",
-			"a truncated group occupies [start, truncatedAt) for the disjointness invariant; range queries are judged on the untruncated bounds (what the code documents)"},
+		Assumptions: []string{"sequential configurations: callers interleave whole operations (DESIGN §5); concurrent configuration: only the operations of one round overlap, rounds are separated by quiescent audits",
+			"a truncated group occupies [start, truncatedAt) for the disjointness invariant; range queries are judged on the untruncated bounds (what the code documents)",
+			"concurrent oracle (interval semantics): an acknowledged point must be reachable at quiescence and after a reload unless a delete of its group (DeleteShardGroup, or DropShard of its shard) was requested; a group that any completed operation returned or listed keeps its id, policy and bounds and stays in the meta data unless such a delete was requested; ids of groups and shards are unique; live groups do not overlap; a range query returns every intersecting group seen before it began and not deleted before it returned, and nothing else than intersecting groups not deleted before it began"},
 	})
 	reg(&checkSpec{
-		ID: "C19", Harness: "meta", Inst: metaInst, Level: "exploration", Classes: []string{"C19:"},
+		ID: "C19", Harness: "meta", Inst: metaInst, Level: "exploration", Classes: []string{"C19:", "deadlock", "busy-wait"},
 		Cfgs: []cfgSpec{{Name: "retention", Cfg: "mode=retention", Gating: true, Share: 2},
 			// same, but the write oracle tolerates finding C19-F1 so that the rest of the space is not masked by it
-			{Name: "retention-away-from-known", Cfg: "mode=retention,avoidknown", Gating: true, Share: 2}},
-		QuickSecs: 40, ThoroughSecs: 600,
+			{Name: "retention-away-from-known", Cfg: "mode=retention,avoidknown", Gating: true, Share: 2},
+			// client goroutines under the baton scheduler while the retention service ticks; rounds started together, by a
+			// retention check, or by the prune step of a check
+			{Name: "retention-concurrent", Cfg: "mode=retention-concurrent", Gating: true, Share: 3}},
+		QuickSecs: 60, ThoroughSecs: 600,
 		Rule: "one case = one generated history (retention period incl. infinite, group duration, check interval; batched writes around now−retention, directly created group layouts, clock advances, retention changes, manual deletes, in-use shards, service+client restart) with the real retention service ticking on the virtual clock; " +
-			"non-trivial = at least 3 operations, at least one sweep and one group or accepted point; distinct = distinct hash of (operations, group tables after each step, dropped counts, sweep and deletion counts)",
-		Probes: []string{"sweeps", "groups_expired_by_service", "shards_deleted_by_service", "meta_refs_dropped", "dropped_points", "point_exactly_at_horizon", "retention_changed", "in_use_retry", "pruned", "reopen", "sweep_exactly_at_expiry"},
+			"in the concurrent configuration one case = one program of rounds (writes, retention updates, group creation/deletion, prune on 1-3 goroutines, started together or by a retention check so that they overlap it) plus its schedule; " +
+			"non-trivial = at least 3 operations, at least one sweep and one group or accepted point (concurrent: and at least one context switch); distinct = distinct hash of (operations, group tables after each step, dropped counts, sweep and deletion counts, schedule)",
+		Probes: []string{"sweeps", "groups_expired_by_service", "shards_deleted_by_service", "meta_refs_dropped", "dropped_points", "point_exactly_at_horizon", "retention_changed", "in_use_retry", "pruned", "reopen", "sweep_exactly_at_expiry",
+			"conc_round", "conc_check_overlapping_round", "conc_retention_changed_during_check"},
 		Real:   metaReal, Stub: metaStub,
 		Assumptions: []string{"the clock only moves forward (backward jumps are in no property's quantifier)",
-			"deletion is judged one-directionally: allowed only if end <= now−retention; required (within 2 check intervals) only once end < now−retention"},
+			"deletion is judged one-directionally: allowed only if end <= now−retention; required (within 2 check intervals) only once end < now−retention",
+			"concurrent oracle (interval semantics): at quiescence and after a reload the retention period is that of the last acknowledged UpdateRetentionPolicy (one of them if several overlapped); a write or a deletion by the service that overlaps retention updates is judged against every period requested since the last quiescent state (rejected/deleted only if expired under one of them, accepted only if live under one of them)"},
 	})
 }
 
-// The harness is sequential and needs no instrumented package, but cmd/instrument refuses an empty package
-// list; pkg/file is not linked into the harness, so naming it changes nothing in the binary.
-var metaInst = []string{"pkg/file"}
+// Inst is per check, not per configuration: the sequential configurations never call Simulate and run the instrumented
+// packages pass-through; the concurrent configurations need every lock of meta.Client, of the points writer and of the
+// retention service as a scheduling point.
+var metaInst = []string{"v1/services/meta", "v1/coordinator", "v1/services/retention"}
